@@ -93,6 +93,19 @@ def run(repo, res):
                   'statements of the same block: a binding overwritten on every path stays listed (phantom definition)'
                   % (cls, reader, bad[0][1] if bad else '', bad[0][3] if bad else '', bad[0][2] if bad else ''),
                   sample='%s: from %s the later statements of %s shadow the earlier ones' % (cls, reader, blk))
+    hyg = R.binding_hygiene_records(repo)
+    seen_fp = set()
+    for cls, variant, owners, line in hyg['foreign_params']:
+        k = '%s takes the parameters of a nested function for its own' % R.method_name(repo, cls)
+        if k in seen_fp:
+            continue
+        seen_fp.add(k)
+        res.check('C03-R1', k, False, line[0], line[1],
+                  'on %s shape `%s` one function scope receives parameters written in %s: the parameters of a lambda used as a default '
+                  'value become names of the enclosing function - reads of such a name there resolve to a definition that reaches them '
+                  'on no path' % (cls, variant, owners))
+    res.ob('C03-R1', 'a function scope holds its own parameters only', not hyg['foreign_params'],
+           sample='%d shape paths (defaults that are lambdas with parameters included)' % hyg['n'])
     brecs = R.binder_records(repo)
     for (cls, kind, path), r in sorted(brecs.items()):
         if r['n'] == 0 or r['missing']:
